@@ -54,6 +54,7 @@ func fromCps(c []int) string {
 // LexReal runs the real lexer to the end of the input (or its first error).
 // crash is non-empty if the lexer panicked or failed to make progress.
 func LexReal(input string) (res LexResult, crash string) {
+	defer guard("lexer.ReadToken loop", input)()
 	defer func() {
 		if r := recover(); r != nil {
 			crash = fmt.Sprintf("panic: %v", r)
